@@ -326,9 +326,6 @@ Definition m_keyed_route (route : Z) (k : nat) (seed : N) (mode : Z) (data : lis
   : list (Z * list Z) :=
   if route =? 0 then m_keyed_vec k seed mode data
   else ksort (keyed_unfused_parts Z.eqb k seed (parts_of mode data)).
-Definition model_j (entry route : Z) (k : nat) (seed : N) (mode : Z) (data : list (Z * Z)) : J :=
-  let v := m_keyed_route route k seed mode data in
-  if entry =? 0 then JL (map enc_group v) else JL (map enc_pair (flatten_keyed v)).
 Definition fast_keyed_route (route : Z) (k : nat) (seed : N) (mode : Z) (data : list (Z * Z))
   : list (Z * list Z) :=
   let parts := parts_of mode data in
